@@ -7,6 +7,7 @@
   One open known finding: U+000D in character data (see `C14_cr_counterexample`).
 -/
 import Mrm.Proofs.SerializeP
+import Mrm.Proofs.LexerP
 
 namespace Mrm
 
@@ -44,6 +45,18 @@ theorem C14_root_step (k : Kind) (d m : Xml) :
 theorem C14_envelope_reachable (d0 : Xml) (rs : List Reader) (ws : List Warn) (strict : Bool)
     (h0 : (rootTags d0).count "mosromgrmeta" = 0) : EnvInv d0 (mergeLoop strict d0 rs ws).ro :=
   envInv_reachable d0 rs ws strict h0
+
+/-- C14 at character level: every tree with valid element/attribute names and non-empty,
+    carriage-return-free character data reads back from its serialisation as exactly itself — text,
+    tails, attribute values (any string, CR/LF/TAB included), markup-significant characters intact.
+    (`parseXml` is the model's lexer + tree builder, tied to ElementTree's parser by the C14
+    correspondence: it reads every explored serialisation exactly as ElementTree does.) -/
+theorem C14_parse_serialize (t : Xml) (h : wfSer t = true) : parseXml (serialize t) = some t :=
+  parse_serialize t h
+
+/-- C14: serialise ∘ read ∘ serialise = serialise -/
+theorem C14_idempotent (t t' : Xml) (h : wfSer t = true) (hp : parseXml (serialize t) = some t') :
+    serialize t' = serialize t := serialize_idempotent t t' h hp
 
 /-- C07 (round trip): a completed running order written out and read back (token level) is the same
     document, hence still completed and still classified as a RunningOrder -/
